@@ -175,6 +175,10 @@ def gen_segments(rng, shape, dist, nlos, allow_outside=True):
             if kind == "corner":                   # exactly through grid corners
                 ka = rng.integers(0, np.array(shape) + 1)
                 kb = rng.integers(0, np.array(shape) + 1)
+                # a segment lying *inside* a cell-boundary plane has no well-defined integral over a
+                # piece-wise constant field -> both corners differ along every axis
+                same = ka == kb
+                kb = np.where(same, np.where(ka > 0, ka - 1, ka + 1), kb)
                 a = (ka - 0.5) * dist
                 b = (kb - 0.5) * dist
         elif kind == "cross":
@@ -298,7 +302,6 @@ def case_los_sigma(ck, rng, bad):
                   "LOSResponse(sigmas) matrix entry differs from the integral of the truncated "
                   "parallax weight over the cell crossing by more than the midpoint-rule bound"):
         ck.hit("los_sigma_rows", nlos)
-    ck.hit("los_sigma_bound_over_signal", 0)
     desc = dict(fam="los_sigma", shape=shape, dist=dist.tolist(), nlos=nlos, kinds=kinds,
                 trunc=trunc, explicit_trunc=explicit_trunc, cells_in_transition=np.round(kc, 2).tolist())
     ck.note(desc, len(shape) >= 2, "los_sigma")
